@@ -128,6 +128,21 @@ def anim_file(spec) -> str:
     return path
 
 
+def alpha_spec(alpha):
+    """The transparency part of a format specifier denoting `alpha` (None when a float has no plain
+    '.digits' decimal form that reads back exactly)."""
+    if alpha is None:
+        return "#"
+    if alpha == "#":
+        return "##"
+    if isinstance(alpha, str):
+        return alpha
+    r = repr(float(alpha))
+    if r.startswith("0.") and "e" not in r and float(r[1:]) == alpha:
+        return "#" + r[1:]
+    return None
+
+
 def is_pil_apng_defect(exc) -> bool:
     """Pillow 11.1 itself raises SyntaxError('APNG contains frame sequence errors') when an APNG is sought
     backwards from a middle frame and then forwards again (pure-PIL reproduction: seek 1, load, seek 0, load,
